@@ -20,7 +20,10 @@ func (basic *Basic) parse(p property) (err error) {
 	case xmpns.ModifyDate:
 		basic.ModifyDate, err = parseDate(p.Value())
 	case xmpns.Rating:
-		basic.Rating = int8(parseUint8(p.Value()))
+		// -1 is "rejected"; values that do not fit the field are reported as 0
+		if r := parseInt(p.Value()); r >= -1 && r <= 127 {
+			basic.Rating = int8(r)
+		}
 	default:
 		return ErrPropertyNotSet
 	}
